@@ -154,7 +154,15 @@ def cases(tier, seed, rng):
         for c in pick:
             c.origin = 'abuse:' + mod.ID + ':' + c.origin
         out += pick
-    return out
+    # token-level abuse of the programs of every family (checks/abuse_dims.py): harness only, survival only
+    from checks import abuse_dims
+    ab = abuse_dims.cases(tier, seed + 1616, random.Random(seed * 31337 + 16))
+    if tier == 'quick':
+        ab = ab[:max(10, len(ab) // 3)]
+    for c in ab:
+        c.origin = 'abuse_dims:' + c.origin
+        c.meta['no_driver'] = True
+    return out + ab
 
 def relevant(f):
     # memory errors, crashes, hangs — and harness/driver mismatches of this family's own ops
